@@ -148,7 +148,7 @@ var metas = map[string]propMeta{
 	"C12": {node: true, quickRuns: 2500, thoroughSec: 1200, batch: 200, level: "exploration"},
 	"C13": {node: true, quickRuns: 1200, thoroughSec: 1200, batch: 200, level: "exploration"},
 	"C14": {node: true, quickRuns: 2500, thoroughSec: 1200, batch: 200, level: "exploration"},
-	"C15": {node: true, quickRuns: 600, thoroughSec: 1200, batch: 100, level: "exploration", race: true},
+	"C15": {node: true, quickRuns: 400, thoroughSec: 1200, batch: 4, level: "exploration", race: true},
 	"C16": {node: true, quickRuns: 1500, thoroughSec: 1200, batch: 150, level: "exploration"},
 	"C20": {quickRuns: 3000, thoroughSec: 600, batch: 300, level: "fault_enumeration"},
 }
@@ -706,7 +706,9 @@ func doCheck(prop, tier string) int {
 			return nil
 		}
 		n := meta.batch
-		if tier == "quick" {
+		if meta.race {
+			n = 1
+		} else if tier == "quick" {
 			// small batches: a few long runs must not leave most workers idle
 			if b := quickRuns / (workers * 6); b < n {
 				n = b
@@ -749,13 +751,23 @@ func doCheck(prop, tier string) int {
 						}
 					}
 				}
+				if err != nil && meta.race && strings.Contains(stderr, "WARNING: DATA RACE") {
+					// the testing package aborts a test at the first race report: one process per
+					// seed in race mode, the report belongs to that seed
+					err = nil
+				}
 				if err != nil {
 					infra = append(infra, err.Error()+"\n"+tail(stderr, 4000))
 					stop = true
 				}
 				if meta.race {
 					for _, r := range raceReports(stderr) {
-						failing = append(failing, runOut{Seed: seeds[0], Failures: []failure{{Oracle: "data-race", Msg: r}}})
+						if strings.HasPrefix(r, "HARNESS-RACE") {
+							infra = append(infra, fmt.Sprintf("race report entirely inside the harness (batch starting at seed %d): %s", seeds[0], r))
+							continue
+						}
+						failing = append(failing, runOut{Seed: seeds[0], NChoices: len(seeds), Failures: []failure{{Oracle: "data-race",
+							Msg: fmt.Sprintf("seeds of the batch: %v\n%s", seeds, r)}}})
 					}
 				}
 				mu.Unlock()
@@ -932,6 +944,17 @@ func doReplay(path string) int {
 		die2("unknown property %q", rf.Property)
 	}
 	bi := build(meta.race)
+	if rf.Oracle == "data-race" {
+		_, stderr, _ := runBatch(bi, rf.Property, []uint64{rf.Seed}, 2, false, false)
+		for _, r := range raceReports(stderr) {
+			if !strings.HasPrefix(r, "HARNESS-RACE") {
+				fmt.Printf("VIOLATION property=%s replay=%s\n  reproduced oracle=data-race with seed %d\n  %s\n", rf.Property, path, rf.Seed, strings.ReplaceAll(tail(r, 4000), "\n", "\n  "))
+				return 1
+			}
+		}
+		fmt.Printf("NOT-REPRODUCED property=%s oracle=data-race seed=%d on tree %s\n", rf.Property, rf.Seed, bi.tree)
+		return 0
+	}
 	o, err := replayOnce(bi, rf.Property, cand{Seed: rf.Seed, Choices: rf.Choices}, 300*time.Second)
 	if err != nil {
 		die2("replay: %v", err)
